@@ -16,14 +16,15 @@ moves the state to SkipRecord and Stop returns Ok(None); I/O errors from pump ar
 returned iovec is the one finish() produced; (R6.3) every retry starts by clearing the iovec before building
 the decoder from it (no bytes of a skipped record leak into the next one); (R6.4) last_sentinel_offset is the
 sentinel's end offset minus STUFF_SEQUENCE.len(); a record's range starts at offset - len of its first Data
-chunk and its end follows every Data chunk; (R6.5 = R8.1) the chunker's refill makes progress for every
-io_block_size (defect F1: block sizes 0 and 1 silently lost every record).
+chunk and its end follows every Data chunk; (R6.5 = R8.1-R8.4) the chunker the reader stands on: the refill makes progress for every
+io_block_size (defect F1: block sizes 0 and 1 silently lost every record), offsets, non-empty Data / honest
+Eof and the split position (a sentinel hidden inside or split across Data chunks glues records together).
 NOT decided: which records come out for a given byte stream (value-level), resynchronisation as a whole.
 """
 
 ASSUMPTIONS = ['C08 (chunker) and C07 (decoder) clauses', 'Decoder::finish returns Ok only for complete input (C07 R7.4)']
 
-FLOORS = {'R6.1': 4, 'R6.2': 7, 'R6.3': 1, 'R6.4': 3, 'R6.5': 5}
+FLOORS = {'R6.1': 4, 'R6.2': 7, 'R6.3': 1, 'R6.4': 3, 'R6.5': 18}
 
 NRB = 'hcobs::stream_reader::StreamReader::next_record_bytes'
 
@@ -216,13 +217,18 @@ def r6_4(cx):
 
 
 def r6_5(cx):
-    """refill progress for every io_block_size (R8.1, defect F1)"""
+    """the chunker the reader stands on: refill progress (F1), offsets, non-empty Data / honest Eof, split position (R8.1-R8.4)"""
     sub = cx.__class__(cx.prog, cx.profile, cx.prop)
-    sub.rule = 'R8.1'
-    c08.r8_1(sub)
+    for rid, f in (('R8.1', c08.r8_1), ('R8.2', c08.r8_2), ('R8.3', c08.r8_3), ('R8.4', c08.r8_4)):
+        sub.rule = rid
+        n0 = len(sub.records)
+        try:
+            f(sub)
+        except Unrecognised as e:
+            sub.unrecognised('anchor', detail='rule cannot be evaluated on this tree: %s' % e)
     for r in sub.records:
         r = dict(r)
-        r['instance'] = 'R8.1:' + r['instance']
+        r['instance'] = r['rule'] + ':' + r['instance']
         r['rule'] = cx.rule
         cx.records.append(r)
 
